@@ -9,7 +9,10 @@ KEYS = ['parso.python.tree._StringComparisonMixin.__eq__', 'parso.python.tree._S
         # refactoring is an exact splice: the visit recursion computes the spec function rcode (contracts/refactor.py)
         'parso.normalizer.RefactoringNormalizer.visit', 'parso.normalizer.RefactoringNormalizer.visit_leaf',
         'parso.normalizer.Normalizer.visit#refactor', 'parso.normalizer.Normalizer.visit_leaf#refactor',
-        'parso.normalizer.Normalizer._check_type_rules#refactor', 'parso.python.tree.Param.__init__']
+        'parso.normalizer.Normalizer._check_type_rules#refactor', 'parso.python.tree.Param.__init__',
+        # ... down from the API: Grammar.refactor builds the normalizer on the map and walks the node
+        'parso.grammar.Grammar.refactor', 'parso.normalizer.RefactoringNormalizer.__init__',
+        'parso.normalizer.Normalizer.walk#refactor', 'parso.normalizer.Normalizer.initialize', 'parso.normalizer.Normalizer.finalize']
 
 
 def run(report):
@@ -21,5 +24,5 @@ def run(report):
                   "the tree with every mapped node replaced by its string' (theory splice); dict lookup by a tree object is by "
                   "identity (_StringComparisonMixin.__eq__ contract); the mutual recursion visit -> Normalizer.visit -> visit "
                   "is verified for partial correctness (termination by tree height not checked across the two functions); "
-                  "Normalizer.walk / Grammar.refactor (constructor + walk wrapper) are not under contract")
+                  "Grammar.refactor, the constructor and Normalizer.walk are verified on top of it: refactor(node, map) == rcode(map, node)")
     run_bounded(report, ['stmt'], scale=0.5)
